@@ -327,7 +327,7 @@ func rconRunTCP(s rconBeh) (obs []rconObs, reqid int32, err error) {
 	var imu sync.Mutex
 	setInfra := func(e error) { imu.Lock(); infra = e; imu.Unlock() }
 	clientDone := make(chan struct{})
-	var clientWires [][]byte      // frames a raw server took off the wire, in order
+	var clientWires [][]byte // frames a raw server took off the wire, in order
 	// ---- server side
 	wg.Add(1)
 	go func() {
